@@ -22,6 +22,7 @@ Step(r, jj) ==
       [] r.ev = "wwake_ref" -> J!WWakeRef(jj, r.w)
       [] r.ev = "pdrop" -> J!PayloadDrop(jj)
       [] r.ev = "release" -> J!Release(jj)
+      [] r.ev = "cell" -> J!Access(jj)
       [] OTHER -> jj
 
 \* the run must have terminated (spin loops exit, nothing hangs), nothing panicked, accounts balance, pool is empty
